@@ -155,7 +155,12 @@ class CategoriesToIntegers(BaseEstimator, TransformerMixin):
             sch, pos, new_vector = self._schema
             X = X.copy()
             for c in self._fit_columns:
-                X[c] = X[c].apply(lambda v, cv=c: transform(v, new_vector[cv]))
+                col = X[c]
+                if isinstance(col.dtype, pandas.CategoricalDtype):
+                    # apply maps the declared levels of a categorical column,
+                    # used or not, instead of the values of the rows
+                    col = col.astype(object)
+                X[c] = col.apply(lambda v, cv=c: transform(v, new_vector[cv]))
             return X
         else:
             dfcat = X[self._fit_columns]
